@@ -126,7 +126,8 @@ Lemma KND_track m o ob : KND (m_keys m) -> KND (m_keys (track cfg m o ob)).
 Proof.
   intros HK. rewrite mkeys_track. destruct o; try exact HK.
   - change (KND (m_keys (issue_m cfg m u p ob))). destruct (issue_m_view cfg m u p ob) as (_ & _ & ->). apply KND_issue. exact HK.
-  - cbn [track_op]. destruct (nth_error (m_reqs m) r) as [x|]; [|exact HK]. destruct (ri_stat x); exact HK.
+  - cbn [track_op]. destruct (nth_error (m_reqs m) r) as [x|]; [|exact HK]. destruct (ri_stat x); try exact HK.
+    destruct (ri_popx x) as [c|]; [|exact HK]. destruct (nth_error (m_conns m) c) as [y|]; [|exact HK]. destruct (ci_share y); exact HK.
   - cbn [track_op]. destruct (holder_conn m r); exact HK.
 Qed.
 
